@@ -66,7 +66,7 @@ Definition all_blocks (c : libcase) : res (list (string * option string * list d
 Definition model_graph (c : libcase) : res graph := do ns <- all_blocks c; import ns.
 
 Definition tables_for (c : libcase) (key : string) : list string :=
-  match find (fun n => String.eqb (key_from_file_name (ni_name n)) key) (lc_notes c) with
+  match find (fun n => String.eqb (key_name (ni_name n)) key) (lc_notes c) with
   | Some n => ni_tables n
   | None => []
   end.
